@@ -29,9 +29,18 @@ def check(ctx):
     ctx.rule('C13.S1', 'every insertion into an ordered list is followed by doSort(); only whitelisted base members are used')
     ctx.rule('C13.S2', 'doSort is a stable sort with the library comparator')
     ctx.rule('C13.S3', 'comparator lambda is a strict weak order extending compare, empties first, get() only on full slots')
+    ctx.rule('C13.S5', 'slot protocol of the queue instantiated with the ordered list: elements enter the list only when they hold their event')
     ctx.rule('C13.S4', 'SelectQueueList picks the policy list')
+    # the ordered list sorts at splice time and reads each element's event for that: an element may enter the queue list only once
+    # it holds its event (FULL), and the exactly-once slot protocol holds for the ordered instantiations like for std::list
+    from .c05 import run_slot_rules
+    nint = 0
     for tu in ctx.tus:
         check_tu(ctx, tu)
+        nint += run_slot_rules(ctx, 'C13.S5', None, tu, only_kinds=('P-',), classes=('EventQueueBase',),
+                               fn_filter=lambda f: 'OrderedQueueList' in f.clsq or 'PoliciesOrdered' in f.clsq)
+    ctx.require(nint >= 6, 'C13.S5: fewer than 6 processing functions of queues with the ordered list were interpreted (%d)' % nint)
+    ctx.require_min('C13.S5', 4)
     ctx.require_min('C13.S1', 3)
     ctx.require_min('C13.S2', 1)
     ctx.require_min('C13.S3', 1)
